@@ -36,6 +36,8 @@ type ConcWorld struct {
 	sel           selector.Selector
 	cfg           *traversal.Config
 	baseline      map[string]string
+	// BaselineFinding: set when the sequential reference run itself misbehaved
+	BaselineFinding *run.Finding
 }
 
 func sv(k string, n int) model.Value {
@@ -80,18 +82,33 @@ func NewConcWorld() (*ConcWorld, error) {
 	w.cfg = &traversal.Config{LinkSystem: w.gr.LS, LinkTargetNodePrototypeChooser: func(datamodel.Link, linking.LinkContext) (datamodel.NodePrototype, error) {
 		return basicnode.Prototype.Any, nil
 	}}
-	for _, op := range ConcOps {
-		r, err := w.Do(op, 0, nil)
-		if err != nil {
-			return nil, fmt.Errorf("baseline %s: %w", op, err)
+	// The sequential reference: every operation alone, twice over the whole list.  An operation that fails
+	// here, or whose result differs the second time round (some EARLIER operation changed a shared object),
+	// already breaks "each obtains the same results as it would running alone": it is reported as a finding
+	// (BaselineFinding), not as a machinery error.
+	for pass := 0; pass < 2 && w.BaselineFinding == nil; pass++ {
+		for _, op := range ConcOps {
+			var r string
+			var err error
+			if p := model.Safe(func() { r, err = w.Do(op, 0, nil) }); p != nil {
+				err = fmt.Errorf("panic: %v", p)
+			}
+			if err == nil && pass == 1 && r != w.baseline[op] {
+				err = fmt.Errorf("result changed between two sequential runs: %q then %q", w.baseline[op], r)
+			}
+			if err != nil {
+				w.BaselineFinding = &run.Finding{Step: -1, Target: "concurrent", Rule: "SameResultAsAlone[sequential]", Class: "different-result",
+					Detail: fmt.Sprintf("operation %s, run sequentially after %v (pass %d): %v", op, ConcOps, pass+1, err)}
+				break
+			}
+			w.baseline[op] = r
 		}
-		w.baseline[op] = r
 	}
 	return w, nil
 }
 
 var ConcOps = []string{"read-basic", "read-bind", "read-bind-repr", "deep-equal", "copy", "encode-cbor", "encode-json", "walk", "load",
-	"loadraw", "build-basic", "build-bind", "wrap-explicit", "proto-inferred", "struct-lookup"}
+	"loadraw", "build-basic", "build-bind", "wrap-explicit", "proto-inferred", "struct-lookup", "ts-clone", "ts-merge"}
 
 func projStr(n datamodel.Node) (string, error) {
 	v, err := model.Project(n)
@@ -209,6 +226,26 @@ func (w *ConcWorld) Do(op string, g int, fresh *freshStruct) (string, error) {
 			return fmt.Sprintf("%d %s", x, y), nil
 		}
 		return "36 ada", nil
+	case "ts-clone":
+		// copy a type out of the shared, finished type system and look at both the copy and the original
+		orig := w.ts.TypeByName("HTeam").(*schema.TypeStruct)
+		cl := schema.Clone(orig).(*schema.TypeStruct)
+		out := ""
+		for _, f := range orig.Fields() {
+			out += f.Name() + ":" + f.Type().Name() + ":" + f.Parent().Name() + " "
+		}
+		return fmt.Sprintf("%s| %d fields cloned", out, len(cl.Fields())), nil
+	case "ts-merge":
+		// merge the shared type system into a fresh one; the shared one must stay as it is
+		var ts2 schema.TypeSystem
+		ts2.Init()
+		schema.MergeTypeSystem(&ts2, w.ts, true)
+		orig := w.ts.TypeByName("HTeam").(*schema.TypeStruct)
+		out := ""
+		for _, f := range orig.Fields() {
+			out += f.Name() + ":" + f.Type().Name() + " "
+		}
+		return fmt.Sprintf("%s| %d types merged", out, len(ts2.Names())), nil
 	}
 	return "", fmt.Errorf("unknown op %s", op)
 }
